@@ -17,7 +17,8 @@ R = {
  'util_Serializer_extendSize': 'Ser_extendSize', 'util_Deserializer_ctor': 'Des_ctor', 'util_Deserializer_fetch__uint8_tr': 'Des_fetch_u8',
  'util_Deserializer_fetch__uint16_tr': 'Des_fetch_u16', 'util_Deserializer_fetch__uint32_tr': 'Des_fetch_u32', 'util_Deserializer_fetch__uint64_tr': 'Des_fetch_u64',
  'util_Deserializer_fetch__voidp_size_t': 'Des_fetch_raw', 'util_Deserializer_fetchPOD': 'Des_fetchPOD', 'util_Deserializer_fetchNoCopy': 'Des_fetchNoCopy',
- 'util_Deserializer_skip': 'Des_skip', 'util_Deserializer_set_pos': 'Des_set_pos', 'util_Deserializer_checkSize': 'Des_checkSize',
+ 'util_Deserializer_skip': 'Des_skip', 'op_shr__tbox_util_Deserializerr_uint8_tr': 'Des_shr_u8', 'op_shr__tbox_util_Deserializerr_uint16_tr': 'Des_shr_u16',
+ 'op_shr__tbox_util_Deserializerr_uint32_tr': 'Des_shr_u32', 'op_shr__tbox_util_Deserializerr_uint64_tr': 'Des_shr_u64', 'util_Deserializer_set_pos': 'Des_set_pos', 'util_Deserializer_checkSize': 'Des_checkSize',
 }
 
 PRELUDE = r'''
@@ -52,6 +53,19 @@ __CPROVER_ensures(__CPROVER_return_value == (OLDPOS + %d <= self->size_))
 __CPROVER_ensures(__CPROVER_return_value ==> (self->pos_ == OLDPOS + %d && *out == (%s)(%s)))
 __CPROVER_ensures(!__CPROVER_return_value ==> (self->pos_ == OLDPOS && *out == __CPROVER_old(*out)))
 ''' % (T, W, W, T, val)
+def shr_c(T, W, val):
+    # stream form: the result of fetch is discarded - on a short buffer the output simply keeps its old value
+    return REQ_D.replace('self', 's') + r'''
+__CPROVER_requires(__CPROVER_is_fresh(out, sizeof(%s)))
+__CPROVER_assigns(s->pos_, *out)
+__CPROVER_ensures(DWF(s) && __CPROVER_return_value == s)
+__CPROVER_ensures((__CPROVER_old(s->pos_) + %d <= s->size_) ? (s->pos_ == __CPROVER_old(s->pos_) + %d && *out == (%s)(%s)) : (s->pos_ == __CPROVER_old(s->pos_) && *out == __CPROVER_old(*out)))
+''' % (T, W, W, T, val.replace('self->', 's->').replace('OLDPOS', '__CPROVER_old(s->pos_)'))
+DES_CTOR = r'''
+__CPROVER_requires(__CPROVER_is_fresh(self, sizeof(*self)) && size < V_MAXSZ && V_PREBLK_R_Des_ctor(start, (size > 0 ? size : 1)))
+__CPROVER_assigns(*self)
+__CPROVER_ensures(__CPROVER_pointer_equals(self->start_, (const uint8_t *)start) && self->size_ == size && self->endian_ == endian && self->pos_ == 0)   /* pointer_equals: a caller may dereference through start_ */
+'''
 def append_c(W, bytes_clause):
     return REQ_S + r'''
 __CPROVER_assigns(self->pos_; self->size_ > 0: __CPROVER_object_whole(self->start_))
@@ -67,6 +81,10 @@ SPEC = {
     ('contract', 'Des_fetch_u16'): fetch_c('uint16_t', 2, 'VAL16(self->start_ + OLDPOS, self->endian_)'),
     ('contract', 'Des_fetch_u32'): fetch_c('uint32_t', 4, 'VAL32(self->start_ + OLDPOS, self->endian_)'),
     ('contract', 'Des_fetch_u64'): fetch_c('uint64_t', 8, 'VAL64(self->start_ + OLDPOS, self->endian_)'),
+    ('contract', 'Des_ctor'): DES_CTOR,
+    ('contract', 'Des_shr_u8'): shr_c('uint8_t', 1, 'self->start_[OLDPOS]'),
+    ('contract', 'Des_shr_u16'): shr_c('uint16_t', 2, 'VAL16(self->start_ + OLDPOS, self->endian_)'),
+    ('contract', 'Des_shr_u32'): shr_c('uint32_t', 4, 'VAL32(self->start_ + OLDPOS, self->endian_)'),
     ('contract', 'Des_fetch_raw'): REQ_D + r'''
 __CPROVER_requires(size < V_MAXSZ && (size > 0 ==> __CPROVER_is_fresh(p, size)))
 __CPROVER_assigns(self->pos_, v_mc_off; size > 0: __CPROVER_object_upto(p, size))
@@ -96,7 +114,7 @@ __CPROVER_decreases(times)
 __CPROVER_requires(size < V_MAXSZ)
 __CPROVER_assigns(self->pos_)
 __CPROVER_ensures(DWF(self))
-__CPROVER_ensures((OLDPOS + size <= self->size_) ? (__CPROVER_return_value == self->start_ + OLDPOS && self->pos_ == OLDPOS + size) : (__CPROVER_return_value == NULL && self->pos_ == OLDPOS))
+__CPROVER_ensures((OLDPOS + size <= self->size_) ? (__CPROVER_pointer_equals(__CPROVER_return_value, self->start_ + OLDPOS) && self->pos_ == OLDPOS + size) : (__CPROVER_return_value == NULL && self->pos_ == OLDPOS))
 ''',
     ('contract', 'Des_skip'): REQ_D + r'''
 __CPROVER_requires(size < V_MAXSZ)
@@ -154,8 +172,8 @@ H_VEC = H(r'''  /* vector mode: the block grows to exactly pos bytes and holds t
 
 UNITS = [UnitSpec(
     name='serializer', tu='modules/util/serializer.cpp', filter='tbox::util', rename=R, spec=SPEC, prelude=PRELUDE,
-    plugins=[StdVector()], model_headers=['vec_model.h'],
-    emit=['tbox::util::Serializer::ctor', 'tbox::util::Serializer::append', 'tbox::util::Serializer::appendPOD', 'tbox::util::Deserializer::ctor',
+    plugins=[StdVector()], model_headers=['vec_model.h'], more_filters=[('modules/util/serializer.cpp', 'operator>>')],
+    emit=[('operator>>', 'tbox::util::Deserializer &, uint8_t &'), ('operator>>', 'tbox::util::Deserializer &, uint16_t &'), ('operator>>', 'tbox::util::Deserializer &, uint32_t &'), 'tbox::util::Serializer::ctor', 'tbox::util::Serializer::append', 'tbox::util::Serializer::appendPOD', 'tbox::util::Deserializer::ctor',
           'tbox::util::Deserializer::fetch', 'tbox::util::Deserializer::fetchPOD', 'tbox::util::Deserializer::fetchNoCopy', 'tbox::util::Deserializer::skip',
           'tbox::util::Deserializer::set_pos'],
     targets=[
@@ -163,6 +181,10 @@ UNITS = [UnitSpec(
         Target('fetch_u16', HD('Des_fetch_u16', 'uint16_t'), enforce='Des_fetch_u16', clause='fetch u16 in both byte orders'),
         Target('fetch_u32', HD('Des_fetch_u32', 'uint32_t'), enforce='Des_fetch_u32', clause='fetch u32 in both byte orders'),
         Target('fetch_u64', HD('Des_fetch_u64', 'uint64_t'), enforce='Des_fetch_u64', clause='fetch u64 in both byte orders'),
+        Target('ctor', H('  struct util_Deserializer *d; const void *p; size_t n; int e; Des_ctor(d, p, n, e);'), enforce='Des_ctor', clause='Deserializer(start, size, endian): position 0'),
+        Target('shr_u8', H('  struct util_Deserializer *d; uint8_t *o; Des_shr_u8(d, o);'), enforce='Des_shr_u8', replace=['Des_fetch_u8'], clause='operator>> u8 (proved against the fetch contract)'),
+        Target('shr_u16', H('  struct util_Deserializer *d; uint16_t *o; Des_shr_u16(d, o);'), enforce='Des_shr_u16', replace=['Des_fetch_u16'], clause='operator>> u16 (proved against the fetch contract)'),
+        Target('shr_u32', H('  struct util_Deserializer *d; uint32_t *o; Des_shr_u32(d, o);'), enforce='Des_shr_u32', replace=['Des_fetch_u32'], clause='operator>> u32 (proved against the fetch contract)'),
         Target('fetch_raw', H('  struct util_Deserializer *d; void *p; size_t n; Des_fetch_raw(d, p, n);'), enforce='Des_fetch_raw', clause='fetch(void*, n): bounds + tracked byte'),
         Target('fetchPOD', H('  struct util_Deserializer *d; void *p; size_t n; Des_fetchPOD(d, p, n);'), enforce='Des_fetchPOD', no_checks=['--pointer-overflow-check'],
                clause='fetchPOD: reverse loop with loop contract, any size (one-before-begin pointer value of the final decrement not checked)'),
